@@ -366,6 +366,38 @@ def run_files(spec, rec, lib):
             viol(rec, "keyfiles/wrong-length-key-file-accepted/" + label, "key files of %d/%d bytes loaded as keys" % (len(pri), len(pub)), {"kind": "files"})
         elif ok.family not in ("TypeError", "ValueError"):
             viol(rec, boundary.mechanism("undocumented-error", "keyfiles_to_keys", "TypeError|ValueError", ok), label, {"kind": "files"})
+    # the hex form of a private key as the command line reads it from a key file: every 32-byte seed is a key, whatever digits
+    # its hex text begins or ends with
+    import json as _json
+
+    from ..refs import canonjson as _canon
+
+    seeds = [bytes([0x0B]) + bytes(range(1, 32)), bytes([0, 0, 0, 1]) + bytes(range(4, 32)), bytes(32), bytes([0x00, 0x0E]) + bytes(range(2, 32)),
+             b"\xff" * 32, bytes(range(1, 29)) + bytes(4), gkeys.key(2).seed]
+    for j, seed in enumerate(seeds):
+        rp, kp = os.path.join(d, "cli-repodata-%d.json" % j), os.path.join(d, "cli-key-%d.txt" % j)
+        md = {"name": "a", "version": "1.0", "n": j}
+        with open(rp, "w") as fh:
+            _json.dump({"packages": {"a-1.0-0.tar.bz2": md}, "packages.conda": {}}, fh)
+        with open(kp, "w") as fh:
+            fh.write(seed.hex() + ("\n" if j % 2 else ""))
+        try:
+            o = boundary.call(lib, lib.cli.cli, ["sign-artifacts", rp, kp])
+        except SystemExit as e:
+            o = None
+            rec.count("cli_keyfile_systemexit:%s" % (e.code,))
+        rec.case("files|cli-hex-keyfile|%d" % j)
+        rec.count("cli_hex_keyfile_runs")
+        want = {ed25519.public(seed).hex(): {"signature": ed25519.sign(seed, _canon.canon(md)).hex()}}
+        try:
+            with open(rp) as fh:
+                got = _json.load(fh).get("signatures", {}).get("a-1.0-0.tar.bz2")
+        except Exception:  # noqa: BLE001
+            got = None
+        if got != want:
+            viol(rec, "rfc8032/cli-hex-keyfile/signature-or-public-key-differs",
+                 "sign-artifacts with the hex key %s... did not file the RFC 8032 signature under the RFC 8032 public key (got %s)"
+                 % (seed.hex()[:8], "nothing" if not got else "other values"), {"kind": "files", "seed": seed.hex()})
     g = boundary.call(lib, M.gen_keys)
     if g.accepted:
         priv, pub = g.value
